@@ -1,14 +1,14 @@
 #!/bin/bash
 # usage: tools/verify_seed.sh <id> [name]   — confirms a seeded change in its scratch worktree /tmp/seed/<id>:
 #   builds, runs the library's own test suite (must pass), demo must FAIL with the change and PASS without it.
-id=$1; name=${2:-$1}; W=/tmp/seed/$id
+R=${SEEDROOT:-/tmp/seed}; id=$1; name=${2:-$1}; W=$R/$id
 cd $W || exit 2
 git checkout -q -- pixman 2>/dev/null; git apply seed_demo/patch.diff || { echo "$id: patch does not apply"; exit 2; }
 ninja -C _build >/dev/null 2>&1 || { echo "$id: build failed"; exit 2; }
 t=$(meson test -C _build 2>&1 | grep -E "^(Ok|Fail):" | tr -s ' ' | tr '\n' ' ')
-(cd seed_demo && bash ./build_and_run.sh >/tmp/seed/$id.demo_with.log 2>&1); rc_with=$?
+(cd seed_demo && bash ./build_and_run.sh >$R/$id.demo_with.log 2>&1); rc_with=$?
 git checkout -q -- pixman; ninja -C _build >/dev/null 2>&1
-(cd seed_demo && bash ./build_and_run.sh >/tmp/seed/$id.demo_without.log 2>&1); rc_without=$?
+(cd seed_demo && bash ./build_and_run.sh >$R/$id.demo_without.log 2>&1); rc_without=$?
 echo "$id: tests[$t] demo_with_change_rc=$rc_with demo_without_change_rc=$rc_without"
 mkdir -p /verif/seeded/$name
 cp seed_demo/patch.diff seed_demo/demo.c seed_demo/build_and_run.sh seed_demo/NOTES.md /verif/seeded/$name/ 2>/dev/null
